@@ -128,7 +128,13 @@ lines.append("Each sub-agent saw only the text of one property and a scratch "
              "clean-ups, migration to newer NumPy / pathlib / math idioms, "
              "type annotations with argument normalisation), all edits but "
              "one behaviour-preserving; all 20 were caught as the checks "
-             "stood. "
+             "stood. Round 23 (S23-*): performance pull requests of 20-100 "
+             "lines (vectorisation, fewer copies, re-used buffers, caches, "
+             "batched I/O, fast paths, narrower work types) with one "
+             "assumption that does not always hold; 17 were caught as the "
+             "checks stood, 1 by the check of another property, 2 (the same "
+             "mistake twice: rounding in a float32 work array) after the "
+             "floating-point neighbours of ties were added to C11 and C01. "
              "%d changes in total: %d rejected as outside the "
              "quantified domain (marked), %d not detected (marked, a "
              "documented limit), %d detected; "
